@@ -271,6 +271,32 @@ def correspondence(out, ctx, cases, opts=None, engines=("np",), per_case_points=
     for ci, net in enumerate(cases):
         pv = nets.random_params(net, rng)
         pts = points_for(net, pv, rng, per_case_points)
+        # branch-targeted points: keep sampling (tree evaluation only) until both sides of every
+        # min / max / if node of the model trees were taken or the budget is exhausted
+        tkey = "np" if mt.get("np") is not None else ("cs" if mt.get("cs") is not None else None)
+        if tkey is not None and "ERR" not in mt[tkey][ci]:
+            trees_ = mt[tkey][ci]
+            total = 2 * sum(tree.count_branch_nodes(t_) for k_, t_ in trees_.items()
+                            if not (isinstance(t_, tuple) and t_ and t_[0] == "!"))
+            covered = set()
+            for _, sv_ in pts:
+                for k_, (v_, m_, br_) in dyn.eval_all(trees_, dyn.env_of(pv, sv_)).items():
+                    covered |= {(k_, b_) for b_ in br_}
+            extra = 0
+            for _ in range(40 if ctx["tier"] == "quick" else 400):
+                if len(covered) >= total or extra >= (3 if ctx["tier"] == "quick" else 12):
+                    break
+                sv_ = dyn.admissible_state(net, pv, rng, "boundary")
+                new = set()
+                for k_, (v_, m_, br_) in dyn.eval_all(trees_, dyn.env_of(pv, sv_)).items():
+                    new |= {(k_, b_) for b_ in br_}
+                if new - covered:
+                    covered |= new
+                    pts.append(("targeted", sv_))
+                    extra += 1
+            cov = out["coverage"].setdefault("branch_sides", {"total": 0, "covered": 0})
+            cov["total"] += total
+            cov["covered"] += len(covered)
         # every other case interleaves look-up reads / validation with the construction calls
         run = Runner(net, pv, reads_seed=(ci * 31 + 7) if ci % 2 else None)
         oc = run.R.order_check()
